@@ -216,7 +216,7 @@ impl FileSystem for RecFS {
         self.inner.remove_dir(path)
     }
     fn copy_file(&self, src: &str, dest: &str) -> VfsResult<()> {
-        self.log.rec("copy_file", src);
+        self.log.rec("copy_file_source", src); // the source is only read
         self.log.rec("copy_file", dest);
         self.inner.copy_file(src, dest)
     }
